@@ -265,7 +265,9 @@ func c17RehashAll(c *Ctx) {
 			continue
 		}
 		a := segs[0].Common().Args
-		whole := onlyOrigins(a[1], func(o string) bool { return strings.HasPrefix(o, "recv:") || o == "next" || strings.HasPrefix(o, "tuple:") }) && !hasOrigin(a[1], func(o string) bool { return o == "subslice" })
+		whole := onlyOrigins(a[1], func(o string) bool {
+			return strings.HasPrefix(o, "recv:") || o == "next" || strings.HasPrefix(o, "tuple:")
+		}) && !hasOrigin(a[1], func(o string) bool { return o == "subslice" })
 		c.verdict(whole, "VerifyIndex.worker:whole-batch", segs[0].Pos(), "the whole received batch becomes the segment", fmt.Sprintf("the segment is not the whole received batch (origins %v)", origins(a[1])))
 		vals := calls(w, suffixed("fileSeedSegment).Validate"))
 		okV := len(vals) == 1 && hasOrigin(vals[0].Common().Args[0], func(o string) bool { return o == "call:desync.newFileSeedSegment#0" })
